@@ -24,6 +24,7 @@
    The other obligations of C02 (no out-of-bounds access, no signed overflow, no use of dead storage under the
    documented preconditions) are theorems about the component models, re-exported in Properties_*.v. *)
 From Tetl Require Import Lib.Base.
+From Tetl Require C01.Model.
 Local Open Scope Z_scope.
 
 Inductive cell := Uninit (bits : Z) | Val (v : Z).
@@ -35,7 +36,10 @@ Inductive obj :=
 | StringView | Span | Mdspan
 | StaticSet | FlatSet | FlatMultiset | Stack
 | Optional | OptionalNonTrivial | Variant | Expected
-| Bitset | InplaceFunction | Pair | Tuple | Extents | Duration.
+| Bitset | InplaceFunction | Pair | Tuple | Extents | Duration
+(* any capacity: the width of the size member is smallest_size_t<Capacity> (C01.Model.size_bits: 8 bits below 255,
+   16 below 65535, 32 below 2^32 - 1, else 64) *)
+| StaticVectorCap (capacity : Z) | InplaceVectorCap (capacity : Z).
 
 (* how the observed members are printed *)
 Inductive shape :=
@@ -47,7 +51,7 @@ Inductive shape :=
 Definition shape_of (o : obj) : shape :=
   match o with
   | StaticVectorTrivial | StaticVectorNonTrivial | InplaceVectorTrivial | InplaceVectorNonTrivial
-  | StaticSet | FlatSet | FlatMultiset | Stack => Sized
+  | StaticSet | FlatSet | FlatMultiset | Stack | StaticVectorCap _ | InplaceVectorCap _ => Sized
   | InplaceStringTiny | InplaceStringNormal => SizedTerm
   | StringView | Span | Mdspan => SizedPtr
   | _ => Raw
@@ -57,6 +61,8 @@ Definition shape_of (o : obj) : shape :=
 Definition members (o : obj) : list cell :=
   match o with
   | InplaceVectorTrivial | InplaceVectorNonTrivial => [Uninit 8]
+  | InplaceVectorCap c => [Uninit (C01.Model.size_bits c)]
+  | StaticVectorCap _ => [Val 0]
   | StaticVectorTrivial | StaticVectorNonTrivial | StaticSet | FlatSet | FlatMultiset | Stack => [Val 0]
   | InplaceStringTiny | InplaceStringNormal => [Val 0; Val 0]          (* size, character at index size() *)
   | StringView | Span | Mdspan => [Val 0; Val 0]                       (* size, data pointer *)
@@ -107,7 +113,7 @@ Definition default_obs_poisoned (o : obj) : list Z := present (shape_of o) (map 
 Definition empty_state (o : obj) : list Z :=
   match o with
   | StaticVectorTrivial | StaticVectorNonTrivial | InplaceVectorTrivial | InplaceVectorNonTrivial
-  | StaticSet | FlatSet | FlatMultiset | Stack => [0; 1]
+  | StaticSet | FlatSet | FlatMultiset | Stack | StaticVectorCap _ | InplaceVectorCap _ => [0; 1]
   | InplaceStringTiny | InplaceStringNormal => [0; 1; 0]
   | StringView | Span | Mdspan => [0; 1; 1]
   | Optional | OptionalNonTrivial => [0]
